@@ -109,6 +109,37 @@ def guards(body, bb, eb=None, _depth=0):
                     for g2 in guards(body, okd[0], eb, _depth + 1):
                         if g2 not in out and g2 not in extra:
                             extra.append(g2)
+        # materialised condition: `let enabled = a && b; if !enabled { return }` - a guard on a bool
+        # variable with several definitions implies the guards of the definition(s) that can give
+        # it that value
+        for g in out:
+            if g[0] not in ("true", "false"):
+                continue
+            pos, e = bool_atoms(g)
+            if not (e[0] == "var" and isinstance(e[1], int) and body.local_ty(e[1]) == "bool"):
+                continue
+            cands = []
+            for dbb, didx, item in body.defs().get(e[1], []):
+                if body.is_cleanup(dbb) or didx == "term":
+                    cands = None
+                    break
+                saved = (eb.cur_bb, eb.cur_idx)
+                v = eb.at(dbb, didx).rvalue(item["rv"])
+                eb.cur_bb, eb.cur_idx = saved
+                if v[0] == "c" and isinstance(v[1], bool):
+                    if v[1] == pos:
+                        cands.append((dbb, None))
+                else:
+                    cands.append((dbb, v))
+            if cands and len(cands) == 1:
+                dbb, v = cands[0]
+                if v is not None:
+                    g3 = ("true" if pos else "false", v)
+                    if g3 not in out and g3 not in extra:
+                        extra.append(g3)
+                for g2 in guards(body, dbb, eb, _depth + 1):
+                    if g2 not in out and g2 not in extra:
+                        extra.append(g2)
         out = out + extra
     return out
 
